@@ -351,7 +351,7 @@ def run(tier):
         # quick: a seeded sample of the two-module matrix (judged cells only) + all field / transitive / directory cells
         matrix = [i for i, v in enumerate(vis) if v["name"].count("-") == 6 and v["name"].split("-")[1] in gen.KINDS and v["expect"] != "conflict"]
         if n_vis_matrix < len(matrix):
-            keep = set(rnd.sample(matrix, n_vis_matrix)) | {i for i, v in enumerate(vis) if v["cell"].split(":")[0] in ("field", "transitive", "directory")}
+            keep = set(rnd.sample(matrix, n_vis_matrix)) | {i for i, v in enumerate(vis) if v["cell"].split(":")[0] in ("field", "transitive", "relisted", "directory")}
             vis = [v for i, v in enumerate(vis) if i in keep]
         chk.extra["visibility_probes"] = len(vis)
         acc = [i for i, v in enumerate(vis) if v["expect"] == "accept"]
